@@ -16,14 +16,14 @@ def run(r):
     # (tokens, max gap length, gap alphabet, slices)
     plans = [(1, 2, [32, 10, 12], 1, [0], 1), (2, 1, [32, 10, 12], 4, [s % 4], 3)]
     if th:
-        plans = [(1, 3, [32, 9, 10, 12], 1, [0], 1), (2, 1, [32, 10, 12], 1, [0], 1), (2, 2, [32, 10], 48, [(s + i) % 48 for i in range(3)], 7),
+        plans = [(1, 3, [32, 9, 10, 12], 3, [0, 1, 2], 1), (2, 1, [32, 10, 12], 1, [0], 1), (2, 2, [32, 10], 48, [(s + i) % 48 for i in range(3)], 7),
                  (3, 1, [32, 10], 96, [(s + i) % 96 for i in range(2)], 1)]    # (twice the slices since every case exists with and without the optional continuation)
     stats = []
     for (ntok, gl, al, ns, sls, base) in plans:
         for sl in sls:
             tag = "t%d-g%d-%d" % (ntok, gl, sl)
             tr = r.path("ptrace-%s.ndjson" % tag)
-            res = pure.model_to_code(r, "TrimMC", cfg(ntok, gl, al, ns, sl, base=base), "trim", tag, extra_kw={"trace": tr},
+            res = pure.model_to_code(r, "TrimMC", cfg(ntok, gl, al, ns, sl, base=base), "trim", tag, timeout=2700 if th else 1500, extra_kw={"trace": tr},
                                       sort_key=lambda c: (json.dumps([c["lm"], c["rm"]]), -sum(len(g) for g in c["gaps"]) if hash(json.dumps(c["lm"])) % 2 else sum(len(g) for g in c["gaps"]), json.dumps(c["gaps"])))
             # the probe traces of the same runs against the trim actions of ParsleyMachine (conformance; a rejection is drift)
             v = parsefam.validate_traces(r, parsefam.split_trace_file(r, tr, 8), [])
